@@ -58,7 +58,7 @@ def gen_text(rng, seed):
     if k < 0.45:
         # one operation of every name with operands of arbitrary kinds and counts
         name = rng.choice(op_names() + ["FOO", "set", "Set"])
-        args = [rng.choice(["R1", "R16", "5", "-5", "70000", '"s"', "'c'", "lbl", "", "0x", "(", "R1 R2", "1,", "@", '"unclosed', "<b>",
+        args = [rng.choice(["R1", "R16", "R", "r", "Rx", "R-1", "r_", "5", "-5", "70000", '"s"', "'c'", "lbl", "", "0x", "(", "R1 R2", "1,", "@", '"unclosed', "<b>",
                             "99999999999999999999", "'\\n'", "'ab'", "__eval", "-", "- 5", "5 +", "\x00"])
                 for _ in range(rng.choice([0, 1, 2, 3, 4, 6]))]
         sep = rng.choice([", ", ",", " , ", " ", ",,"])
@@ -95,6 +95,7 @@ SYMBOL_STATEMENTS = [
     "DSKIP(N)", "DSKIP(M)", 'DSKIP("s")', "DSKIP(-1)", "DSKIP(70000)", "DSKIP(N, M)", "INTEGER(N)", "INTEGER(M)", "LP_STRING(N)",
     'LP_STRING("text")', "SET(R1, N)", "SET(R1, M)", "SET(N, 1)", "INC(R1, N)", "SETLO(R1, N)", "BR(N)", "BRR(N)", "BRR(M)", "CALL(R12, N)",
     "OPCODE(N)", "OPCODE(M)", "print_reg(N)", "print(N)", "ADD(N, M, R1)", "N(1)", "FOO(N)", "#include N", "NOP()",
+    "LABEL(r)", "CONSTANT(R, 5)", "SET(R, 1)", "BR(r)", "DLABEL(R)",
 ]
 
 
